@@ -9,7 +9,9 @@
 (*   failover.go   FailoverGroup.Query / RangeQuery / Config / Flags /     *)
 (*                 Metadata: the five ordered retry loops   Try            *)
 (*   checks/base.go problemFromError + the checks' ErrUnsupported branch   *)
-(*                                                          ImplProblem    *)
+(*                                             ImplProblem, ImplDisabled   *)
+(*   failover.go IsEnabledForPath (config ServersForPath)   Routed         *)
+(*   prometheus.go unsupporedAPIs + cache on a repeated call SecondCallAsks*)
 (* Doc side  : the statement of C15 (and docs/configuration.md, `failover` *)
 (*   and `required`): Doc_Contact, Doc_Result, Doc_Severity.               *)
 (*                                                                         *)
@@ -37,12 +39,17 @@ Modes == {"healthy",
 Endpoints == {"query", "query_range", "config", "flags", "metadata"}
 OptionalAPIs == {"config", "flags", "metadata"}
 
+\* path routing of the server (`include` / `exclude` of the prometheus block against the rule file's path):
+\* "none" = no such pattern configured, "hit" = a pattern matches the path, "miss" = patterns exist, none matches
+PathMatch == {"none", "hit", "miss"}
+
 VARIABLES modes, ep, required,   \* the case
+          inc, exc,              \* path routing of the case
           i,                     \* next upstream to try
           contacted,             \* upstreams that received a request, in order
           disabled,              \* upstreams whose API was marked unsupported (unsupporedAPIs.disable)
           res                    \* [done, ok, err, at]: outcome of the FailoverGroup call
-vars == <<modes, ep, required, i, contacted, disabled, res>>
+vars == <<modes, ep, required, inc, exc, i, contacted, disabled, res>>
 
 -----------------------------------------------------------------------------
 (* Impl: one request                                                       *)
@@ -101,21 +108,43 @@ StopsAt(err, e) ==
 
 NoRes == [done |-> FALSE, ok |-> FALSE, err |-> "", at |-> 0]
 
+\* failover.go IsEnabledForPath (used by config.PrometheusGenerator.ServersForPath when checks are created):
+\* no patterns at all -> enabled; an exclude match wins; then an include match enables; otherwise NOT enabled
+Routed(in, ex) ==
+  IF in = "none" /\ ex = "none" THEN TRUE
+  ELSE IF ex = "hit" THEN FALSE
+  ELSE in = "hit"
+\* docs/configuration.md: `include` - only matching paths use the server; `exclude` - matching paths never use it;
+\* exclude takes precedence. (Not part of C15; Routed and DocRouted differ for exclude-only configurations
+\* whose patterns do not match: in = "none", ex = "miss".)
+DocRouted(in, ex) == ex # "hit" /\ in \in {"none", "hit"}
+
 Faults(ms) == Cardinality({k \in 1..N : ms[k] # "healthy"})
 Timeouts(ms) == Cardinality({k \in 1..N : ms[k] = "timeout"})
 \* every upstream down (the outage the severity clause is about) is always in scope
 AllDown(ms) == \A k \in 1..N : ms[k] \in {"refused", "timeout", "http500", "json5xx", "json503un"}
 InScope(ms) == (Faults(ms) <= MaxFaults \/ AllDown(ms)) /\ (TwoTimeouts \/ Timeouts(ms) <= 1)
 
+AllHealthy == [k \in 1..N |-> "healthy"]
 Init ==
-  /\ modes \in {ms \in [1..N -> Modes] : InScope(ms)}
+  /\ \/ /\ modes \in {ms \in [1..N -> Modes] : InScope(ms)}      \* fault cases, plain routing
+        /\ required \in BOOLEAN
+        /\ inc = "none" /\ exc = "none"
+     \/ /\ modes = AllHealthy                                        \* routing cases
+        /\ required = FALSE
+        /\ inc \in PathMatch /\ exc \in PathMatch /\ <<inc, exc>> # <<"none", "none">>
   /\ ep \in Endpoints
-  /\ required \in BOOLEAN
   /\ i = 1 /\ contacted = <<>> /\ disabled = {} /\ res = NoRes
 
 \* prom.<Endpoint>(...) on upstream i, then the loop's decision
+\* a server that is not routed to the file gets no check at all: nothing is asked
+NotRouted ==
+  /\ ~res.done /\ ~Routed(inc, exc)
+  /\ res' = [done |-> TRUE, ok |-> FALSE, err |-> "notrouted", at |-> 0]
+  /\ UNCHANGED <<modes, ep, required, inc, exc, i, contacted, disabled>>
+
 Try ==
-  /\ ~res.done /\ i <= N
+  /\ ~res.done /\ i <= N /\ Routed(inc, exc)
   /\ LET raw == IF i \in disabled THEN "unsupported" ELSE RunError(modes[i], ep)
          err == ProcessJob(raw) IN
      /\ contacted' = IF i \in disabled THEN contacted ELSE Append(contacted, i)
@@ -124,10 +153,10 @@ Try ==
         ELSE IF StopsAt(err, ep) \/ i = N THEN res' = [done |-> TRUE, ok |-> FALSE, err |-> err, at |-> i]
         ELSE res' = res
   /\ i' = i + 1
-  /\ UNCHANGED <<modes, ep, required>>
+  /\ UNCHANGED <<modes, ep, required, inc, exc>>
 
 Finished == res.done /\ UNCHANGED vars
-Next == Try \/ Finished
+Next == Try \/ NotRouted \/ Finished
 Spec == Init /\ [][Next]_vars
 
 \* the same loop as a function of the case (used by JUDGE for the binding)
@@ -146,6 +175,27 @@ ImplProblem(out, req, checkSeverity) ==
   ELSE IF out.err = "ErrUnsupported" THEN "none"
   ELSE IF IsUnavailableError(out.err) THEN (IF req THEN "Bug" ELSE "Warning")
   ELSE checkSeverity
+
+\* the online check used per endpoint and the API it depends on
+CheckOf(e) == CASE e = "query" -> "query/cost" [] e = "query_range" -> "alerts/count" [] e = "config" -> "alerts/external_labels"
+                [] e = "flags" -> "promql/range_query" [] OTHER -> "promql/counter"
+APIPath(e) == CASE e = "config" -> "/api/v1/status/config" [] e = "flags" -> "/api/v1/status/flags" [] OTHER -> "/api/v1/metadata"
+
+\* checks: on ErrUnsupported the check registers itself as disabled for that API (FailoverGroup.DisableCheck);
+\* cmd/pint copies this into Summary.MarkCheckDisabled -> one {API, checks} item per server
+ImplDisabled(out, e) ==
+  IF ~out.ok /\ out.err = "ErrUnsupported" THEN {<<APIPath(e), CheckOf(e)>>} ELSE {}
+
+\* a second, identical call on the same group: an upstream whose API was marked unsupported is not asked again
+\* (unsupporedAPIs), a successful answer comes from the cache; everything else is asked again
+SecondCallAsks(ms, e) ==
+  LET o == ImplOutcome(ms, e) IN
+  {k \in 1..Len(o.contacted) :
+     /\ ProcessJob(RunError(ms[k], e)) # "ErrUnsupported"
+     /\ ~(o.ok /\ k = o.at)}
+
+\* uptime: alerts/count asks count(<uptime metric>) once its own range query returned series
+ImplAsksUptime(ms, e) == e = "query_range" /\ ImplOutcome(ms, e).ok
 
 -----------------------------------------------------------------------------
 (* Doc side                                                                *)
@@ -185,13 +235,17 @@ Doc_Severity(ms, e, req, sev) ==
   /\ AnsweredByHealthy(ms, e) => sev = "none"
 
 Inv_C15 ==
-  res.done => /\ Doc_Contact(modes, ep, contacted)
+  (res.done /\ Routed(inc, exc)) => /\ Doc_Contact(modes, ep, contacted)
               /\ Doc_Result(modes, ep, contacted, res.ok, res.at)
               /\ Doc_Severity(modes, ep, required, ImplProblem(res, required, "Bug"))
 Inv_LoopAgrees ==
-  res.done => /\ ImplOutcome(modes, ep).contacted = contacted
+  (res.done /\ Routed(inc, exc)) => /\ ImplOutcome(modes, ep).contacted = contacted
                                  /\ ImplOutcome(modes, ep).ok = res.ok /\ ImplOutcome(modes, ep).err = res.err
 
 \* GEN: one case per initial state
-EmitCase == IF i = 1 THEN PrintT(<<"CASE", ToJson([modes |-> modes, ep |-> ep, required |-> required])>>) ELSE TRUE
+\* unsupported upstreams are exactly the contacted ones that answered 404 on an optional API
+Inv_Disabled ==
+  res.done => disabled = {k \in 1..Len(contacted) : modes[contacted[k]] = "http404" /\ ep \in OptionalAPIs}
+
+EmitCase == IF i = 1 /\ ~res.done THEN PrintT(<<"CASE", ToJson([modes |-> modes, ep |-> ep, required |-> required, inc |-> inc, exc |-> exc])>>) ELSE TRUE
 =============================================================================
